@@ -9,7 +9,17 @@ macro_rules! widths3 {
         pub const WIDTHS: &[usize] = &[$($b),*];
         pub fn dispatch(m: &mut Mon, bits: usize, op: &str, args: &[Arg]) {
             match bits {
-                $($b => exec::<$b, { ($b + 63) / 64 }, { ($b + 7) / 8 }>(m, op, args),)*
+                $($b => {
+                    if op == "array_size" {
+                        // arrays one byte longer, one byte shorter, a whole limb view, and a limb longer
+                        array_size::<$b, { ($b + 63) / 64 }, { ($b + 7) / 8 + 1 }>(m, args);
+                        array_size::<$b, { ($b + 63) / 64 }, { (($b + 7usize) / 8).saturating_sub(1) }>(m, args);
+                        array_size::<$b, { ($b + 63) / 64 }, { 8 * (($b + 63) / 64) }>(m, args);
+                        array_size::<$b, { ($b + 63) / 64 }, { ($b + 7) / 8 + 8 }>(m, args);
+                    } else {
+                        exec::<$b, { ($b + 63) / 64 }, { ($b + 7) / 8 }>(m, op, args)
+                    }
+                })*
                 _ => panic!("harness: width {bits} not instantiated"),
             }
         }
@@ -39,6 +49,53 @@ fn denote_be(bytes: &[u8], bits: usize) -> (Vec<u64>, bool) {
     let v = num_bigint::BigUint::from_bytes_be(bytes);
     let fits = big::fits(&v, bits);
     (if fits { big::limbs(&v, gen::nlimbs(bits)) } else { vec![] }, fits)
+}
+
+/// The fixed-size array forms instantiated with an array length N that is not BYTES. The documented
+/// behaviour is a panic; what may never happen is an array that is not the N-byte positional encoding of the
+/// value (or a decoded value other than the one the array denotes), or a read outside the value.
+fn array_size<const B: usize, const L: usize, const N: usize>(m: &mut Mon, a: &[Arg]) {
+    let nb = (B + 7) / 8;
+    if N == nb {
+        return;
+    }
+    let limbs = a[0].u();
+    let x: Uint<B, L> = uint(limbs);
+    m.nontrivial(!gen::is_zero(limbs));
+    let le_full = le_digits(limbs, nb);
+    let fits_n = le_full.iter().skip(N).all(|b| *b == 0);
+    let mut le_n = le_full.clone();
+    le_n.resize(N, 0);
+    let be_n: Vec<u8> = le_n.iter().rev().copied().collect();
+    if let Ok(v) = m.call(|| x.to_le_bytes::<N>().to_vec()) {
+        m.check(fits_n && v == le_n, "to_le_bytes.wrong-size", || format!("panic (array of {N} bytes, BYTES = {nb})"), || format!("{v:02x?}"));
+    }
+    if let Ok(v) = m.call(|| x.to_be_bytes::<N>().to_vec()) {
+        m.check(fits_n && v == be_n, "to_be_bytes.wrong-size", || format!("panic (array of {N} bytes, BYTES = {nb})"), || format!("{v:02x?}"));
+    }
+    // decoding an N-byte array: the low bytes of the value, the rest zero, so the array always denotes a value that fits
+    let mut arr = [0u8; N];
+    for (d, s) in arr.iter_mut().zip(le_full.iter()) {
+        *d = *s;
+    }
+    let mut want = limbs.to_vec();
+    if N < nb {
+        for (i, w) in want.iter_mut().enumerate() {
+            for k in 0..8 {
+                if 8 * i + k >= N {
+                    *w &= !(0xffu64 << (8 * k));
+                }
+            }
+        }
+    }
+    if let Ok(v) = m.call(|| Uint::<B, L>::from_le_bytes::<N>(arr)) {
+        m.eq_uint("from_le_bytes.wrong-size", &v, &want);
+    }
+    let mut rev = arr;
+    rev.reverse();
+    if let Ok(v) = m.call(|| Uint::<B, L>::from_be_bytes::<N>(rev)) {
+        m.eq_uint("from_be_bytes.wrong-size", &v, &want);
+    }
 }
 
 fn exec<const B: usize, const L: usize, const NB: usize>(m: &mut Mon, op: &str, a: &[Arg]) {
@@ -80,7 +137,7 @@ fn exec<const B: usize, const L: usize, const NB: usize>(m: &mut Mon, op: &str, 
                 m.eq("to_be_bytes_trimmed_vec", &v, &be_t);
             }
             // wrong array size must panic (documented)
-            m.must_panic(|| x.to_le_bytes::<{ 777 }>().len(), "BYTES mismatch");
+            m.must_panic(|| x.to_le_bytes::<777>().len(), "BYTES mismatch");
             // copy into buffers: exact, longer (tail untouched), shorter (panic / None, untouched)
             for extra in [0usize, 1, 9] {
                 let mut buf = vec![0xa5u8; NB + extra];
@@ -235,7 +292,13 @@ fn workload(m: &mut Mon, bits: usize) {
         }
         m.case("encode", bits, vec![au(&v)]);
     }
+    for v in [gen::max(bits), gen::zero(bits), gen::small(1, bits), gen::ones(bits / 2, bits)] {
+        m.case("array_size", bits, vec![au(&v)]);
+    }
     let mut r = m.stream("c08.encode", bits);
+    for _ in 0..m.iters(12) {
+        m.case("array_size", bits, vec![au(&gen::hostile(&mut r, bits))]);
+    }
     for i in 0..m.iters(if bits <= 512 { 1200 } else { 300 }) {
         if i % 256 == 0 && m.time_up() {
             break;
